@@ -159,6 +159,9 @@ type setRun struct {
 	cases []setCase
 	obs   []setObs
 	wg    sync.WaitGroup
+	// long-waiting latencyCase scenarios run next to the set cases, each against a private monitor
+	slow    []latencyCase
+	slowMon []*lib.Monitor
 }
 
 // startSetCases launches the cases in the background (they mostly sleep).
@@ -179,6 +182,19 @@ func startSetCases(f lib.Flags) *setRun {
 			{Kind: "set", Subscribers: []string{"bp-never-cancel"}},
 		}
 	}
+	r.slow = []latencyCase{
+		{Kind: "latency", What: "collection-bp-pause-update"},
+		{Kind: "latency", What: "collection-bp-pause-delete"},
+	}
+	r.slowMon = make([]*lib.Monitor, len(r.slow))
+	for i := range r.slow {
+		r.slowMon[i] = lib.NewMonitor("private", "")
+		r.wg.Add(1)
+		go func(i int) {
+			defer r.wg.Done()
+			r.slow[i].run(r.slowMon[i])
+		}(i)
+	}
 	r.obs = make([]setObs, len(r.cases))
 	for i := range r.cases {
 		r.wg.Add(1)
@@ -196,6 +212,13 @@ func (r *setRun) finish(res *lib.Result, drv *lib.Driver) {
 	mon := res.Monitor("set-send-timeout", "on the same runs, independent of the model: a Set whose event cannot be delivered returns a non-nil error and no value after ~5s (4.5s..10s) instead of hanging or reporting success; a Set whose event can be delivered returns and stores the written value without error, promptly; distinct = the subscriber list")
 	tie.Exhaustive = true
 	r.wg.Wait()
+	bp := res.Monitor("collection-backpressure-waits", "real Collection with ONE backpressured Pull subscriber that takes nothing for 6s while one Update (resp. one Delete) is in flight: the write does not return before the subscriber receives, its event is delivered after the seed, and the write then returns; runs concurrently with the Value.set timeout cases; distinct = scenario")
+	for i, pm := range r.slowMon {
+		bp.Eval(r.slow[i].What, true, nil)
+		for _, v := range pm.Violations {
+			bp.Violate(v.Signature, v.What, v.Input, v.Expected, v.Observed)
+		}
+	}
 	lines := make([]string, len(r.cases))
 	for i, c := range r.cases {
 		lines[i] = c.modelLine()
